@@ -55,6 +55,10 @@ logger = logging.getLogger(__name__)
 DEFAULT_MAX_JUMPS = 10
 
 
+class _JumpSourceNotRunningError(Exception):
+    """The jumping stage left RUNNING while its jump was being applied."""
+
+
 class JumpToStageHandler(StabilizeHandler[JumpToStage]):
     """
     Handler for JumpToStage messages.
@@ -122,6 +126,12 @@ class JumpToStageHandler(StabilizeHandler[JumpToStage]):
                     if fresh is None:
                         logger.warning("Stage %s not found during jump; skipping", stage_id)
                         continue
+                    # The jumping stage may have been canceled by another worker
+                    # after the handler looked at it: re-check on the row this
+                    # transaction is about to overwrite (its version guards the
+                    # write), and abandon the whole jump if it is no longer RUNNING.
+                    if stage_id == message.stage_id and fresh.status != WorkflowStatus.RUNNING:
+                        raise _JumpSourceNotRunningError(str(fresh.status))
                     mutate(fresh)
                     txn.store_stage(fresh)
                 if message.message_id:
@@ -133,7 +143,15 @@ class JumpToStageHandler(StabilizeHandler[JumpToStage]):
                 for msg in messages_to_push:
                     txn.push_message(msg)
 
-        self.retry_on_concurrency_error(attempt, "applying jump atomically")
+        try:
+            self.retry_on_concurrency_error(attempt, "applying jump atomically")
+        except _JumpSourceNotRunningError as gone:
+            logger.info(
+                "Abandoning jump to %s: source stage %s became %s",
+                message.target_stage_ref_id,
+                message.stage_id,
+                gone,
+            )
 
     def _handle_with_retry(self, message: JumpToStage) -> None:
         """Handle jump with concurrency retry support."""
